@@ -31,7 +31,7 @@ META = dict(
 def tasks(tier):
     pols = loop.POLICIES
     if tier == "quick":
-        combos = [dict(policy=p, cons=c) for p in pols for c in ([], ["eq0"])] + [dict(policy="DualNorm", cons=["ge"]), dict(policy="ObjectiveFilter", cons=["ge"]), dict(policy="DualNorm", cons=["eq0"], vars=["boxed", "lower"]), dict(policy="LagrangianFilter", cons=[], vars=["free", "boxed"])]
+        combos = [dict(policy=p, cons=c) for p in pols for c in ([], ["eq0"])] + [dict(policy="DualNorm", cons=["ge"]), dict(policy="ObjectiveFilter", cons=["ge"]), dict(policy="DualNorm", cons=["eq0"], vars=["boxed", "lower"]), dict(policy="LagrangianFilter", cons=[], vars=["free", "boxed"]), dict(policy="DualNorm", cons=["ge"], scaling=dict(vw=[1], cw=[-2], ow=3)), dict(policy="ObjectiveFilter", cons=["eqb"], scaling=dict(vw=[-1], cw=[2], ow=-1))]
         # without constraints the loop is cheap: go deeper (a filter veto needs an earlier accepted
         # step, so veto-then-accept sequences only exist from K=3 on)
         return loop.loop_tasks(combos, 2) + loop.loop_tasks([dict(policy=p, cons=[]) for p in pols], 4)
